@@ -595,6 +595,7 @@ type cencJob struct {
 	ivLen         int
 	iv            []byte
 	extras        string
+	optimize      bool   // encode the encrypted file with trun optimisation
 	corpus        bool
 	raw           [][]byte // corpus: clear sample bytes
 	initBytes     []byte
@@ -678,6 +679,7 @@ func cencDrive(args []string) error {
 			}
 			job.iv = iv
 			job.extras = []string{"none", "nouuid-in-traf", "all", "none", "seg-sidx", "all", "nouuid-in-traf"}[ci%7]
+			job.optimize = ci%5 == 2
 			job.perFrag = ci%2 == 1
 			cencRun(rep, tw7, tw6, &job, key, fmt.Sprintf("case%d", ci))
 			if c07EncBin != "" && ci%3 == int(seedFromEnv())%3 {
@@ -980,6 +982,18 @@ func cencRun(rep *Report, tw7, tw6 *TraceWriter, job *cencJob, key []byte, name 
 				}
 				nfr++
 			}
+		}
+		// a share of the jobs is written with trun / tfhd optimisation: the encoder then shrinks boxes that precede senc
+		// AFTER EncryptFragment has computed the saio offset
+		if job.optimize {
+			f.EncOptimize = mp4.OptimizeTrun
+			for _, seg := range f.Segments {
+				seg.EncOptimize = mp4.OptimizeTrun
+				for _, fr := range seg.Fragments {
+					fr.EncOptimize = mp4.OptimizeTrun
+				}
+			}
+			cs["optimize_trun"] = true
 		}
 		var eb bytes.Buffer
 		if err := f.Encode(&eb); err != nil {
